@@ -454,7 +454,7 @@ def evaluate_batch(chk, cases):
                              dict(replay, traceback=tb)))
         elif obs.startswith('ok:') and verdict != 'ok':
             # the cause tag only explains the clause it belongs to
-            mine = (verdict, tag) in (('formula-major', 'call-extra-args-ignored'), ('not-a-formula', 'stmt-value-evaluated'))
+            mine = (verdict, tag) in (('formula-major', 'call-extra-args-ignored'), ('not-a-formula', 'stmt-value-evaluated'), ('formula-major', 'beyond-interpreter-stack'))
             sig = f'C15:{verdict}' + (f':{tag}' if mine else '')
             findings.append((sig, f'clause "{verdict}" violated: operational_status={short(formula_of(case))} reported {obs}', replay))
         info['model'] = m_obs; info['verdict'] = verdict
